@@ -215,7 +215,8 @@ def run(run, rng_unused, tier):
         c["m_der"], c["m_uper"], c["m_oer"] = f if len(f) == 3 else ("?", "?", "?")
     declines, decmeta = [], []
 
-    def rp(c, **kw):
+    def rp(case, **kw):
+        c = case
         d = {"module": mod["text"], "asn1c_options": "-fcompound-names", "type": c["tn"], "model_type": c["ety"], "defaults_root": c["dr"], "defaults_additions": c["da"],
              "stored": c["vs"], "states": {c["ms"][i]["name"]: s for i, s in c["a"].items()}, "canonical_der": c["canon"]}
         d.update(kw)
